@@ -12,11 +12,16 @@ and compares it with what the real dispatcher did.
 open B DriverUtil C01
 
 /-- `DefaultMethods` and `maxDetectionPaths` as re-extracted from /repo by translator/c01 -/
-def methodNames : List String := C01.Facts.methods
+def defaultMethods : List String := C01.Facts.methods
 
 def maxDet : Nat := C01.Facts.maxDetectionPaths
 
-def methodInt (s : String) : Option Nat := methodNames.idxOf? s
+/-- helpers.go `methodInt`: the index in `Config.RequestMethods` (`names` is the configured list, the
+default methods when none is configured — there the fast switch returns the same index, `facts_methodInt`) -/
+def methodInt (names : List String) (s : String) : Option Nat := names.idxOf? s
+
+/-- a method name of the harness' alphabet -/
+def validName (s : String) : Bool := !s.isEmpty && s.length ≤ 12 && s.toList.all fun c => 'A' ≤ c && c ≤ 'Z'
 
 def dotHex (s : String) : Option (List Bytes) :=
   if s == "-" then some []
@@ -25,20 +30,24 @@ def dotHex (s : String) : Option (List Bytes) :=
 def hexDot (l : List Bytes) : String :=
   if l.isEmpty then "-" else ".".intercalate (l.map fun e => if e.isEmpty then "_" else toHex e)
 
-def parseScript (npaths : Nat) (s : String) : Option (Script Nat) :=
+def parseScript (names : List String) (npaths : Nat) (s : String) : Option (Script Nat) :=
   match s.toList with
   | ['n'] => some .next
   | ['s'] => some .stop
   | 'f' :: r => (String.ofList r).toNat?.bind fun c => if 400 ≤ c ∧ c ≤ 599 then some (.fail c) else none
   | 'p' :: r => (String.ofList r).toNat?.bind fun i => if 1 ≤ i ∧ i < npaths then some (.setPath i) else none
-  | 'm' :: r => (methodInt (String.ofList r)).map .setMethod
+  | 'm' :: r =>
+    -- ctx.go `Method(override)`: a name outside `RequestMethods` overrides nothing
+    match methodInt names (String.ofList r) with
+    | some i => some (.setMethod i)
+    | none => if validName (String.ofList r) then some .next else none
   | _ => none
 
-def parseHandler (npaths : Nat) (s : String) : Option (Handler Nat) :=
+def parseHandler (names : List String) (npaths : Nat) (s : String) : Option (Handler Nat) :=
   match s.splitOn "~" with
   | [h, sc] => do
     let hid ← h.toNat?
-    let sc ← parseScript npaths sc
+    let sc ← parseScript names npaths sc
     pure { hid := hid, script := sc }
   | _ => none
 
@@ -46,18 +55,17 @@ structure RegIn where
   kind : String
   reg : Reg Nat
 
-def allMethods : List Nat := List.range methodNames.length
 
-def parseReg (cfg : Cfg) (npaths : Nat) (s : String) : Option RegIn :=
+def parseReg (names : List String) (cfg : Cfg) (npaths : Nat) (s : String) : Option RegIn :=
   match s.splitOn ":" with
   | [k, ms, ch, p, hs] => do
     let chain ← dotHex ch
     let path ← fromHex p
-    let handlers ← (hs.splitOn ".").mapM (parseHandler npaths)
+    let handlers ← (hs.splitOn ".").mapM (parseHandler names npaths)
     if handlers.isEmpty then none
     let methods ← (if k == "A" || (k == "R" && ms != "-") then
-                     (if ms == "-" then none else (ms.splitOn ".").mapM methodInt)
-                   else if ms == "-" then some allMethods else none)
+                     (if ms == "-" then none else (ms.splitOn ".").mapM (methodInt names))
+                   else if ms == "-" then some (List.range names.length) else none)
     if methods.isEmpty || methods.eraseDups.length != methods.length then none
     let joined ← (match k with
       | "G" | "R" => if chain.isEmpty then none else some (groupPrefix chain)
@@ -71,11 +79,22 @@ def parseReg (cfg : Cfg) (npaths : Nat) (s : String) : Option RegIn :=
                                eo := joined.isEmpty } }
   | _ => none
 
-def parseCfg (s : String) : Option (Cfg × Bool) :=
+def parseCfg0 (s : String) : Option (Cfg × Bool) :=
   match s.toList with
   | ['c', a, 's', b, 'u', c, 'x', d] =>
     if [a, b, c, d].all (fun x => x == '0' || x == '1') then
       some ({ caseSensitive := a == '1', strict := b == '1', unescape := c == '1' }, d == '1')
+    else none
+  | _ => none
+
+/-- `c…s…u…x…` optionally followed by `@M1.M2…` = `Config.RequestMethods` -/
+def parseCfg (s : String) : Option (Cfg × Bool × List String) :=
+  match s.splitOn "@" with
+  | [c] => (parseCfg0 c).map fun x => (x.1, x.2, defaultMethods)
+  | [c, ms] =>
+    let names := ms.splitOn "."
+    if names.all validName && names.eraseDups.length == names.length then
+      (parseCfg0 c).map fun x => (x.1, x.2, names)
     else none
   | _ => none
 
@@ -106,7 +125,7 @@ def pathOK (p : Bytes) : Bool :=
 def renderTrace (t : List Nat) : String :=
   if t.isEmpty then "-" else ".".intercalate (t.map toString)
 
-def renderEnd (e : End) : String × String :=
+def renderEnd (methodNames : List String) (e : End) : String × String :=
   match e with
   | .stop => ("200", "-")
   | .fail c => (toString c, "-")
@@ -127,13 +146,16 @@ def renderBits (b : List (List Bool)) : String :=
 def handleCase (f : List String) : Except String Verdict := do
   match f with
   | [id, cfgS, regsS, pathsS, methodS, implObs] =>
-    let some (cfg, _custom) := parseCfg cfgS | throw "outside-domain: cfg"
+    let some (cfg, _custom, methodNames) := parseCfg cfgS | throw "outside-domain: cfg"
     let some paths := hexList pathsS | throw "outside-domain: paths"
     if paths.isEmpty then throw "outside-domain: no request path"
     if !(paths.all pathOK) then throw "outside-domain: path outside the harness' request alphabet"
-    let some m := methodInt methodS | throw "outside-domain: method"
+    if !validName methodS then throw "outside-domain: method"
+    -- a method outside `RequestMethods` is answered 501 before routing; slot 0 stands in for the unused `m`
+    let mOpt := methodInt methodNames methodS
+    let m := mOpt.getD 0
     if regsS.isEmpty || regsS == "-" then throw "outside-domain: empty table"
-    let some regsIn := (regsS.splitOn ";").mapM (parseReg cfg paths.length) | throw "outside-domain: regs"
+    let some regsIn := (regsS.splitOn ";").mapM (parseReg methodNames cfg paths.length) | throw "outside-domain: regs"
     let regs := regsIn.map (·.reg)
     if implObs == "panic" then throw "outside-domain: harness reported a panic"
     let some o := parseObs implObs | throw "unparsable observation"
@@ -168,7 +190,7 @@ def handleCase (f : List String) : Except String Verdict := do
       | .ok ob => ob
       | .error _ => { trace := [], fin := .outOfFuel }
     let looped := mo.fin == .outOfFuel || mo.trace.length ≥ 1000
-    let (ms, ma) := renderEnd mo.fin
+    let (ms, ma) := renderEnd methodNames mo.fin
     let modelAb := regs.map fun g =>
       let g1 : Reg Nat := { g with handlers := [{ hid := 1, script := .stop }] }
       let S1 := build true [g1]
@@ -178,12 +200,16 @@ def handleCase (f : List String) : Except String Verdict := do
         | .error _ => false
     let modelPs := hexDot ((List.range np).map pathBytes)
     let modelPh := ".".intercalate ((List.range np).map fun j => toString (E.pkey j))
+    let unlisted := mOpt.isNone
     let modelObs :=
-      if looped then s!"t=loop;s=loop;a=-;ps={modelPs};ph={modelPh};rp={hexDot (regs.map (·.raw))};tr={renderTree (S.tree m)};mb={o.mbRaw};ab={renderBits modelAb}"
+      if unlisted then s!"t=-;s=501;a=-;ps={modelPs};ph={modelPh};rp={hexDot (regs.map (·.raw))};tr=-;mb={o.mbRaw};ab={renderBits modelAb}"
+      else if looped then s!"t=loop;s=loop;a=-;ps={modelPs};ph={modelPh};rp={hexDot (regs.map (·.raw))};tr={renderTree (S.tree m)};mb={o.mbRaw};ab={renderBits modelAb}"
       else s!"t={renderTrace mo.trace};s={ms};a={ma};ps={modelPs};ph={modelPh};rp={hexDot (regs.map (·.raw))};tr={renderTree (S.tree m)};mb={o.mbRaw};ab={renderBits modelAb}"
     -- spec oracle on the implementation's observation
     let want := linear E regsSpec m 0
-    let (ws, wa) := renderEnd want.fin
+    -- "a method outside Config.RequestMethods is not routed": 501, no handler
+    let (ws, wa) := if unlisted then ("501", "-") else renderEnd methodNames want.fin
+    let wantT := if unlisted then "-" else renderTrace want.trace
     let aloneBad : Option String :=
       ((List.range regs.length).flatMap fun i => (List.range np).map fun j => (i, j)).findSome? fun (i, j) =>
         if (o.ab.getD i []).getD j false != (o.mb.getD i []).getD j false then
@@ -191,19 +217,20 @@ def handleCase (f : List String) : Except String Verdict := do
         else none
     let spec : Option String :=
       if !consistent then some "match-depends-on-context"
-      else if o.t == "loop" then some s!"terminates want t={renderTrace want.trace} s={ws}"
-      else if o.t != renderTrace want.trace then some s!"first-match want t={renderTrace want.trace} s={ws}"
+      else if o.t == "loop" then some s!"terminates want t={wantT} s={ws}"
+      else if o.t != wantT then some s!"first-match want t={wantT} s={ws}"
       else if o.s != ws then some s!"status want s={ws}"
       else if o.a != wa then some s!"allow want a={wa}"
       else aloneBad
     -- known-finding regions: the instrumented run reaches the recorded situation AND the model of the
     -- unchanged code itself deviates from the property on this input (Known.lean)
-    let reach : Option String := match dispatchS E S true fuel m 0 with
+    let reach : Option String := if unlisted then none else match dispatchS E S true fuel m 0 with
       | .error .k1 => some "K1"
       | .error .k2 => some "K2"
       | .ok _ => none
     let known : Option String :=
-      if Known.K1 E regs m 0 then some "K1" else if Known.K2 E regs m 0 then some "K2" else none
+      if unlisted then none
+      else if Known.K1 E regs m 0 then some "K1" else if Known.K2 E regs m 0 then some "K2" else none
     -- tags
     let nmatch := (regs.zip o.mb).countP fun x => x.1.methods.contains m && x.2.headD false
     let det := detectionPath cfg (pathBytes 0)
@@ -211,6 +238,7 @@ def handleCase (f : List String) : Except String Verdict := do
     let allH := (List.range methodNames.length).flatMap fun i => (S.stack i).flatMap (·.handlers)
     let tags : List String :=
       [s!"s{ws}"] ++
+      (if methodNames != defaultMethods then ["custom-methods"] else []) ++
       (if nmatch ≥ 2 then ["nt-multi"] else []) ++
       (if cand.length < (S.stack m).length then ["nt-index-prunes"] else []) ++
       (if det.length < maxDet then ["short-path"] else []) ++
